@@ -101,8 +101,15 @@ def run_case(case, arrays, classes, mon, viol, skip=()):
             mon['skipped_zorder_multi_array'] = mon.get(
                 'skipped_zorder_multi_array', 0) + 1
             continue      # listed C01 finding: tables corrupt with >1 array
-        knobs = c01.knob_choices(cls)[0]
-        if too_costly(cls, arrays, dim):
+        # every documented tuning of the algorithm in turn (levels, table
+        # sizes, leaf sizes...), not just the default one
+        ks = [kn_ for kn_ in c01.knob_choices(cls)
+              if not (cls in c01.ZFAM and kn_.get('H', 1) > 1 and
+                      not kn_.get('asymmetric'))]
+        # (z-order stencils wider than one cell with symmetric variable-h
+        # queries: listed C01 finding about the neighbour sets themselves)
+        knobs = ks[(case['idx'] // 2) % len(ks)]
+        if too_costly(cls, arrays, dim, knobs):
             continue
         if '%d|%s' % (case['idx'], cls) in skip:
             mon['configs_skipped_after_report'] = mon.get(
@@ -211,9 +218,10 @@ def run_case(case, arrays, classes, mon, viol, skip=()):
             exit_tainted()
 
 
-def too_costly(cls, arrays, dim):
+def too_costly(cls, arrays, dim, knobs=None):
     snap = [dict(h=a['h']) for a in arrays]
-    return c01.too_costly(cls, c01.knob_choices(cls)[0], snap, dim)
+    return c01.too_costly(cls, knobs if knobs is not None else
+                          c01.knob_choices(cls)[0], snap, dim)
 
 
 def work(item):
@@ -260,6 +268,11 @@ def run(tier):
         cls = (mk or {}).get('cls') or (item.get('classes') or [None])[0]
         if cls == c01.SSFC and 'fill_array' in rep['key']:
             return 'stratified-sfc:fill_array-reads-before-buffer'
+        if cls == c01.SSFC and any(f in rep['key'] for f in (
+                '_neighbor_boxes', '_fill_nbr_boxes', 'find_nearest')):
+            # building / querying the neighbour structure, not the
+            # re-ordering: the listed neighbour-search finding
+            return 'stratified-sfc:neighbours-unreliable'
         return None
     cov = harness.san_violations(m, v, classify=san_key)
     for c in crashes:
